@@ -195,7 +195,7 @@ theorem assertValidRename_read (rn : List (Key × Key)) (m : Mgr) :
       · exact ⟨rfl, by simp⟩
       · exact ⟨rfl, by simp⟩
 
-theorem supportF_noNR : ∀ (f : Nat) (t : Tbl) (u : Int) (s : List Nat × List Nat),
+theorem supportF_noNR_auto : ∀ (f : Nat) (t : Tbl) (u : Int) (s : List Nat × List Nat),
     supportF f t u s ≠ .error .needsReordering := by
   intro f
   induction f with
@@ -222,7 +222,7 @@ theorem supportF_noNR : ∀ (f : Nat) (t : Tbl) (u : Int) (s : List Nat × List 
 theorem supportLevels_noNR (t : Tbl) (u : Int) : supportLevels t u ≠ .error .needsReordering := by
   unfold supportLevels
   split
-  · next e heq => intro h; cases h; exact supportF_noNR _ _ _ _ heq
+  · next e heq => intro h; cases h; exact supportF_noNR_auto _ _ _ _ heq
   · simp
 
 /-- the decorated body `_image_of`: ANY arguments, reordering not enabled -/
